@@ -202,6 +202,8 @@ class ObjRunner:
             if node.id in self._BUILTIN_TYPES:
                 return self._BUILTIN_TYPES[node.id]
             return NotImplemented
+        if node.value.id == "string" and hasattr(__import__("string"), node.attr) and isinstance(getattr(__import__("string"), node.attr), str):
+            return getattr(__import__("string"), node.attr)
         target_rel = self._module_alias(node, node.value.id)
         if target_rel is not None:
             mod = self.prog.modules[target_rel]
@@ -302,6 +304,8 @@ class ObjRunner:
             target_rel = self._module_alias(call, call.func.value.id)
             if target_rel is not None and f"{target_rel}::{call.func.attr}" in self.prog.funcs:
                 return self.run_function(self.prog.funcs[f"{target_rel}::{call.func.attr}"], None, args, kw, plain=True)
+            if target_rel is not None and f"{target_rel}::{call.func.attr}" in self.prog.classes:
+                return self.new(call.func.attr, *args, **kw)
         if isinstance(call.func, ast.Attribute):
             recv = interp.ev(call.func.value)
             attr = call.func.attr
